@@ -227,6 +227,8 @@ def main2(prop, cfg, tier, seed, scratch, instr_stats, replay_mode, t_start):
     if cfg.get("race"):
         rr = int(tcfg.get("race_runs", max(1, total_runs // 4)))
         phases.append((True, rr, cfg["engine"], {}))
+    for extra in cfg.get("also", []):
+        phases.append((extra.get("race", False), int(extra["runs_" + tier]), extra["engine"], {}))
     if cfg.get("cabi"):
         env2, msg = build_cabi(scratch)
         if env2 is None:
